@@ -39,10 +39,11 @@ struct RCase {
     int triangulate = 1;
     uint64_t seed = 1;
     int kind = 0;
+    double feature = 1;       // smallest feature of the shape (arm thickness, height, minor axis ...): the resolution refers to it
     void write(vf::Writer& w) const {
         poly.write(w);
         w.vu(flip);
-        w.d(lmin_f), w.i(triangulate), w.u(seed), w.i(kind);
+        w.d(lmin_f), w.i(triangulate), w.u(seed), w.i(kind), w.d(feature);
         w.nl();
     }
     static RCase read(vf::Reader& r) {
@@ -50,32 +51,61 @@ struct RCase {
         c.poly = pg::Poly::read(r);
         c.flip = r.vu();
         c.lmin_f = r.d(), c.triangulate = (int)r.i(), c.seed = r.u(), c.kind = (int)r.i();
+        c.feature = r.more() ? r.d() : -1;  // older case files: resolution relative to the diameter
         return c;
     }
 };
 static const char* KIND[] = {"box", "prism", "bipyramid", "icosphere", "ellipsoid", "L-prism", "triangulated-box", "triangulated-prism"};
 
-static rc::Gen<std::pair<pg::Poly, int>> genPoly(bool force_triangulated) {
+struct PolyKind {
+    pg::Poly poly;
+    int kind;
+    double feature;
+};
+static rc::Gen<PolyKind> genPoly(bool force_triangulated) {
     using namespace vf;
     return rc::gen::exec([force_triangulated]() {
         pg::Poly p;
+        double feature = 2;
         int kind = *irange(0, 7);
         if (force_triangulated && (kind == 0 || kind == 1 || kind == 5)) kind = kind == 5 ? 3 : 6 + (kind & 1);
         switch (kind) {
-            case 0: p = pg::box(*uniform(0.6, 1.4), *uniform(0.6, 1.4), *uniform(0.6, 1.4)); break;
-            case 1: p = pg::prism(*irange(3, 9), *uniform(0.7, 1.3), *uniform(0.5, 1.2)); break;
-            case 2: p = pg::from_trimesh(mg::bipyramid(*irange(3, 8))); break;
+            case 0: {
+                double a = *uniform(0.6, 1.4), b = *uniform(0.6, 1.4), cc = *uniform(0.6, 1.4);
+                p = pg::box(a, b, cc), feature = 2 * std::min(a, std::min(b, cc));
+                break;
+            }
+            case 1: {
+                int n = *irange(3, 9);
+                double r = *uniform(0.7, 1.3), h = *uniform(0.5, 1.2);
+                p = pg::prism(n, r, h), feature = std::min(2 * h, n == 3 ? 1.5 * r : n == 4 ? 1.41 * r : 1.7 * r);
+                break;
+            }
+            case 2: p = pg::from_trimesh(mg::bipyramid(*irange(3, 8))), feature = 1.2; break;
             case 3: p = pg::from_trimesh(mg::icosphere(*irange(0, 2))); break;
             case 4: {
                 TriMesh m = mg::icosphere(*irange(1, 2));
                 double sx = *uniform(0.6, 1.6), sy = *uniform(0.6, 1.6), sz = *uniform(0.6, 1.6);
                 for (size_t i = 0; i < m.nn(); i++) m.xyz[3 * i] *= sx, m.xyz[3 * i + 1] *= sy, m.xyz[3 * i + 2] *= sz;
-                p = pg::from_trimesh(m);
+                p = pg::from_trimesh(m), feature = 2 * std::min(sx, std::min(sy, sz));
                 break;
             }
-            case 5: p = pg::lprism(*uniform(0.6, 1.0), *uniform(0.5, 1.0)); break;
-            case 6: p = pg::from_trimesh(pg::triangulate(pg::box(*uniform(0.6, 1.4), *uniform(0.6, 1.4), *uniform(0.6, 1.4)))); break;
-            default: p = pg::from_trimesh(pg::triangulate(pg::prism(*irange(3, 9), *uniform(0.7, 1.3), *uniform(0.5, 1.2)))); break;
+            case 5: {
+                double a = *uniform(0.6, 1.0), h = *uniform(0.5, 1.0);
+                p = pg::lprism(a, h), feature = std::min(a, 2 * h);
+                break;
+            }
+            case 6: {
+                double a = *uniform(0.6, 1.4), b = *uniform(0.6, 1.4), cc = *uniform(0.6, 1.4);
+                p = pg::from_trimesh(pg::triangulate(pg::box(a, b, cc))), feature = 2 * std::min(a, std::min(b, cc));
+                break;
+            }
+            default: {
+                int n = *irange(3, 9);
+                double r = *uniform(0.7, 1.3), h = *uniform(0.5, 1.2);
+                p = pg::from_trimesh(pg::triangulate(pg::prism(n, r, h))), feature = std::min(2 * h, n == 3 ? 1.5 * r : n == 4 ? 1.41 * r : 1.7 * r);
+                break;
+            }
         }
         mg::Placement pl = *mg::genPlacement(true);
         if (pl.mag_class >= 3) pl.mag_class = 2, pl.t[0] /= 100, pl.t[1] /= 100, pl.t[2] /= 100;
@@ -84,7 +114,7 @@ static rc::Gen<std::pair<pg::Poly, int>> genPoly(bool force_triangulated) {
             auto r = mo.applyd(p.xyz[3 * i], p.xyz[3 * i + 1], p.xyz[3 * i + 2]);
             p.xyz[3 * i] = r[0], p.xyz[3 * i + 1] = r[1], p.xyz[3 * i + 2] = r[2];
         }
-        return std::make_pair(p, kind);
+        return PolyKind{p, kind, feature * pl.scale};
     });
 }
 
@@ -94,8 +124,9 @@ static rc::Gen<RCase> genR() {
         RCase c;
         c.triangulate = *irange(0, 4) != 0;
         auto pk = *genPoly(!c.triangulate);
-        c.poly = pk.first;
-        c.kind = pk.second;
+        c.poly = pk.poly;
+        c.kind = pk.kind;
+        c.feature = pk.feature;
         const int flipmode = *irange(0, 2);  // 0 none, 1 some, 2 all
         for (size_t i = 0; i < c.poly.faces.size(); i++) c.flip.push_back(flipmode == 0 ? 0 : flipmode == 2 ? 1 : *irange(0, 2) == 0);
         c.lmin_f = *uniform(0.04, 0.16);  // l_max / diameter in [0.12, 0.48]
@@ -110,7 +141,8 @@ static std::string runR(const RCase& k, vf::Ctx& ctx) {
     const ld size = vg::mesh_size(exact), diam = size / sqrtl(3.0L);
     const ld Vex = vg::signed_volume(exact);
     if (!(Vex > 0)) return "harness: generated polyhedron is not outward wound";
-    const double lmin = (double)(k.lmin_f * diam), lmax = 3 * lmin;
+    const double feature = k.feature > 0 ? k.feature : (double)diam;
+    const double lmin = k.lmin_f * feature, lmax = 3 * lmin;  // l_max / smallest feature in [0.12, 0.48]
     // input file with the generated winding mix
     pg::VtkCell vc;
     vc.poly = k.poly;
@@ -178,7 +210,7 @@ static std::string runR(const RCase& k, vf::Ctx& ctx) {
         }
     } else {
         // faithful: volume, bounding box, node-to-surface distance within a resolution dependent tolerance
-        const ld rho = (ld)lmax / diam;  // resolution
+        const ld rho = (ld)lmax / (ld)feature;  // resolution relative to the smallest feature
         const ld tauV = 0.03 + 0.6 * rho;  // calibrated on the repaired tree: measured maximum ~0.25 rho over 4 seeds
         ctx.count("volume_defect_pct_" + std::to_string((int)(fabsl(V - Vex) / Vex * 100)));
         if (getenv("VERIF_DEBUG")) fprintf(stderr, "OUT tris=%zu nodes=%zu V=%g Vex=%g\n", got.nt(), C.get_nb_of_nodes(), (double)V, (double)Vex);
@@ -217,7 +249,7 @@ static std::string runPoisson(const RCase& k, vf::Ctx& ctx) {
     ct::CellScope scope;
     const TriMesh exact = pg::triangulate(k.poly);
     const ld diam = vg::mesh_size(exact) / sqrtl(3.0L);
-    const double lmin = (double)(k.lmin_f * diam);
+    const double lmin = k.lmin_f * (k.feature > 0 ? k.feature : (double)diam);
     cell_ptr c;
     try {
         c = std::make_shared<cell>(exact.xyz, exact.tri, 0);
